@@ -103,7 +103,7 @@ var AdvNames = []string{
 	"log", "log_file", "file_path", "path", "file", "log_file_path", "a_b", "a", "b_c", "a_b_c", "b", "c", "x_", "_x", "x__y", "y", "x",
 	"index", "iNDEX", "inDex", "value", "vALUE", "valuE", "data", "dATA",
 	"_h0", "_h1", "_h2", "_rv0", "_rv1", "_dvc", "_ret", "_i", "_l", "_c", "_n", "_v", "_fv0", "_sah", "_sch", "_ssh", "_dv1", "f1_x", "f2__h0", "f1__h0", "_e0", "_f0", "_i0", "_ach", "_frh",
-	"done", "fi", "then", "esac", "echo", "test", "exit", "local", "eval", "set", "shift", "unset", "wait", "cat", "printf",
+	"done", "fi", "then", "esac", "elif", "do", "in", "select", "until", "while", "function", "coproc", "echo", "test", "exit", "local", "eval", "set", "shift", "unset", "wait", "cat", "printf",
 	"pATH", "iFS", "hOME", "pWD", "rANDOM", "errorlevel", "cd", "date", "time", "random", "cmdcmdline", "goto", "call", "rem", "nul", "con", "lF",
 	"x1", "x01", "a1b2", "o0", "l1",
 }
@@ -183,7 +183,7 @@ func (g *pgen) fresh(prefix string) string {
 				{"log", "log_file", "file_path", "path", "file", "log_file_path", "a_b", "a", "b_c", "a_b_c", "b", "c", "x_", "_x", "x__y", "y", "x"},
 				{"index", "iNDEX", "inDex", "value", "vALUE", "valuE", "data", "dATA", "x", "xX"},
 				{"_h0", "_h1", "_h2", "_rv0", "_rv1", "_dvc", "_ret", "_i", "_l", "_c", "_n", "_v", "_fv0", "_sah", "_sch", "_ssh", "_dv1", "f1_x", "f2__h0", "f1__h0", "_e0", "_f0", "_i0", "_ach", "_frh"},
-				{"done", "fi", "then", "esac", "echo", "test", "exit", "local", "eval", "set", "shift", "unset", "wait", "cat", "printf", "pATH", "iFS", "hOME", "pWD", "rANDOM", "errorlevel", "cd", "date", "time", "random", "goto", "call", "rem", "nul", "con", "lF"},
+				{"done", "fi", "then", "esac", "elif", "do", "in", "select", "until", "while", "function", "coproc", "echo", "test", "exit", "local", "eval", "set", "shift", "unset", "wait", "cat", "printf", "pATH", "iFS", "hOME", "pWD", "rANDOM", "errorlevel", "cd", "date", "time", "random", "goto", "call", "rem", "nul", "con", "lF"},
 				AdvNames,
 			}
 			g.theme = themes[g.r.Intn(len(themes))]
@@ -793,7 +793,28 @@ func (g *pgen) funcDef(globals []variable, public bool) FuncSig {
 		for i, t := range sig.Rets {
 			vals[i] = g.expr(t, env, 1)
 		}
-		g.line("return %s", strings.Join(vals, ", "))
+		switch {
+		case r.Chance(6):
+			// the function ends in a branching statement whose branches return
+			// (Go accepts that; TypeShell asks for a final return statement)
+			g.line("if %s {", g.expr("bool", env, 1))
+			if r.Chance(60) {
+				g.line("\treturn %s", strings.Join(vals, ", "))
+			}
+			g.line("} else {")
+			g.line("\treturn %s", strings.Join(vals, ", "))
+			g.line("}")
+		case r.Chance(4):
+			g.line("switch {")
+			if r.Chance(50) {
+				g.line("case %s:", g.expr("bool", env, 1))
+			}
+			g.line("default:")
+			g.line("\treturn %s", strings.Join(vals, ", "))
+			g.line("}")
+		default:
+			g.line("return %s", strings.Join(vals, ", "))
+		}
 	}
 	g.indent--
 	g.line("}")
@@ -864,6 +885,27 @@ func GenProgram(r *Rng, f Feat, imports []ModuleRef, tag string) (string, []Func
 		}
 	}
 	env = g.block(env, r.Range(1, f.MaxTop), 0, false, false, f.PublicFuncs)
+	// most functions get called at least once: unused ones are pruned before the
+	// converters see them, so they would exercise the parser only
+	if r.Chance(70) {
+		src := g.sb.String()
+		for _, fn := range g.funcs {
+			if strings.Contains(fn.Name, ".") || strings.Count(src, fn.Name+"(") > 1 || r.Chance(25) {
+				continue
+			}
+			switch len(fn.Rets) {
+			case 0:
+				g.line("%s", g.callExpr(fn, env, 1))
+			default:
+				names := make([]string, len(fn.Rets))
+				for j := range names {
+					names[j] = fmt.Sprintf("uc%s%d", g.tag, g.n+j+1)
+				}
+				g.n += len(names)
+				g.line("%s := %s", strings.Join(names, ", "), g.callExpr(fn, env, 1))
+			}
+		}
+	}
 	// functions with a twin are both used (unused functions never reach the converters)
 	for _, name := range g.twins {
 		for _, fn := range g.funcs {
